@@ -30,7 +30,7 @@ Init == tid \in 1..Len(Traces) /\ l = 1 /\ ref = <<>>
 
 Ev == Traces[tid].ev[l]
 Q  == 1048576
-Slack == 4 + Traces[tid].c.budget      \* 4 quanta + the recorder's rounding budget of the recurrence (<= 64)
+Slack == 4 + Traces[tid].c.budget      \* 4 quanta + the recorder's rounding budget of the recurrence (<= 1024: traces beyond that are dropped as ill conditioned)
 
 Agree(a, b) == \A i \in 1..5 : Within(a[i], b[i], Slack)
 
